@@ -372,6 +372,17 @@ def run_shard(spec, R):
             ok, gpc = R.guarded("setup:perspective", lambda: darsia.GeneralizedPerspectiveCorrection(ccs, ccs, cpts, cpts, fit_options={}))
             if ok:
                 drive("perspective_neutral_coordinates", gpc, inputs(rng, shape, fdtype, ["array2", "scalar"]), neutral=True)
+            # the physically neutral map with source points given as voxel centres and destination points as physical
+            # coordinates (two expressions of the same points)
+            cen = darsia.make_voxel_center(np.asarray(corners, float) * 0.5 + 0.25 * np.array([shape[0], shape[1]]))
+            cen_c = cen.to_coordinate(ccs)
+            ok, affm = R.guarded("setup:affine", lambda: darsia.AffineCorrection(ccs, ccs, cen, cen_c, fit_options={"tol": 1e-12, "maxiter": 5000}))
+            if ok:
+                resid = float(np.max(np.abs(np.asarray(affm.transformation(cen), float) - np.asarray(cen_c, float))))
+                if resid <= 1e-9 * hh * max(shape):
+                    drive("affine_neutral_mixed_kinds", affm, inputs(rng, shape, fdtype, ["array2", "scalar"]), neutral=True)
+                else:
+                    R.skip("affine_neutral_mixed_kinds:fit_not_converged")
             # an inactive colour correction with the clip option set is still neutral, also for data outside [0, 1]
             wide = (rng.random(shape + (3,)) * 2.0 - 0.5).astype(np.float32)
             ccl = darsia.ColorCorrection(base=darsia.CustomColorChecker(reference_colors=ref), config={"roi": roi, "active": False, "clip": True})
